@@ -289,6 +289,47 @@ fn static_child(callers: usize) -> i32 {
     0
 }
 
+/// An asset whose destructor reads its own handle: the value a reload replaces is dropped by the
+/// reloader; `hot_reload` must return and the new value must be in place.
+struct SelfReader(i64);
+static SELF_HANDLE: std::sync::OnceLock<&'static assets_manager::Handle<SelfReader>> = std::sync::OnceLock::new();
+impl Drop for SelfReader {
+    fn drop(&mut self) {
+        if let Some(h) = SELF_HANDLE.get() {
+            let _ = h.read().0;
+        }
+    }
+}
+struct SelfReaderLoader;
+impl assets_manager::loader::Loader<SelfReader> for SelfReaderLoader {
+    fn load(content: std::borrow::Cow<[u8]>, _: &str) -> Result<SelfReader, assets_manager::BoxedError> {
+        Ok(SelfReader(std::str::from_utf8(&content)?.trim().parse()?))
+    }
+}
+impl assets_manager::Asset for SelfReader {
+    const EXTENSION: &'static str = "x";
+    type Loader = SelfReaderLoader;
+}
+fn dropread_child() -> i32 {
+    trace_enable(false);
+    let mem = Mem::new(true);
+    mem.write("s", "x", b"1");
+    let cache: &'static AssetCache<Mem> = Box::leak(Box::new(AssetCache::with_source(mem.clone())));
+    let h = cache.load::<SelfReader>("s").unwrap();
+    let _ = SELF_HANDLE.set(h);
+    for v in 2..5i64 {
+        mem.write("s", "x", v.to_string().as_bytes());
+        mem.send(vec![OwnedDirEntry::File("s".into(), "x".into())]);
+        std::thread::sleep(Duration::from_millis(30));
+        cache.hot_reload();
+        if h.read().0 != v {
+            eprintln!("after the pass: s = {}, expected {v}", h.read().0);
+            return 7;
+        }
+    }
+    0
+}
+
 /// A chain of `n` assets, each loading the next one; loaded bottom-up (no deep recursion on the
 /// loading thread), then the bottom file is edited: one pass walks the whole chain and reloads every
 /// asset of it, on the reloader thread.
@@ -324,6 +365,7 @@ pub fn child(a: &Args) -> i32 {
     match a.get("kind") {
         Some("deep") => deep_child(a.get("n").and_then(|x| x.parse().ok()).unwrap_or(1000)),
         Some("static") => static_child(a.get("n").and_then(|x| x.parse().ok()).unwrap_or(1)),
+        Some("dropread") => dropread_child(),
         Some("gone") => gone_child(a.get("n").and_then(|x| x.parse().ok()).unwrap_or(1)),
         Some("flood") => flood_child(a.get("n").and_then(|x| x.parse().ok()).unwrap_or(100)),
         Some("shape") => shape_child(a.get("spec").unwrap_or("1;")),
@@ -407,7 +449,7 @@ fn all_shapes(max_nodes: usize, rng: &mut Rng, extra_random: usize) -> Vec<Strin
 
 pub fn run(a: &Args) {
     let mut rng = Rng::new(a.seed);
-    let parts = a.get("parts").unwrap_or("shapes,panic,flood,conc,gone,deep,static").to_string();
+    let parts = a.get("parts").unwrap_or("shapes,panic,flood,conc,gone,deep,static,dropread").to_string();
     let mut evals = 0u64;
     let mut samples: Vec<String> = vec![];
     let mut distinct = std::collections::HashSet::new();
@@ -525,6 +567,22 @@ pub fn run(a: &Args) {
                 );
                 break;
             }
+        }
+    }
+
+    // (H) a replaced value whose destructor reads its own handle
+    if parts.contains("dropread") && a.replay.is_none() {
+        evals += 1;
+        distinct.insert("dropread".to_string());
+        if let Err(e) = run_child(&["--kind", "dropread"], Duration::from_secs(15)) {
+            violation(
+                &a.out,
+                "hot_reload-stall",
+                format!(
+                    "{{\"kind\": \"an asset whose destructor reads its own handle is reloaded three times\", \"observed\": {}}}",
+                    jstr(&e)
+                ),
+            );
         }
     }
 
